@@ -75,11 +75,18 @@ def generate(seed, tier, index):
                 e["pre_t_sample"] = ts_[:len(ts_) - rf.randint(1, len(ts_) - 1)]
             else:
                 e["pre_t_sample"] = list(ts_) + [C._scaled(ts_[-1], k_) for k_ in (2.0, 3.5)]
+        if rf.chance(0.1) and e["script"].get("rng_seed") is not None:
+            e["via_dict"] = rf.choice(["dict", "json"])     # the script that runs was read back from its dictionary form
         scripts.append(e)
         ops = C.observed_ops(rf, e["phys"]["sp"], kind, poison=rf.choice([0, 0x7f, 0xff]),
                              outputs=rf.wchoice([(1, 4), (2, 1)]))
         if rf.chance(0.7) or j == nscripts - 1:
             ops.append(["finalize"])
+            spg = e["phys"]["spec"]["space"]
+            if j == nscripts - 1 and kind != "gillespie" and spg["type"] == "grid" and all(b == "reflecting" for b in spg["bc"]) \
+                    and rf.chance(0.5):
+                # the same script on a coarse-grained copy of the system: a fixed-step run records at the same times
+                ops.append(["simulate_cg", {"slices": [4, 3], "ms": 1000}, list(range(spg["w"] * spg["h"] * spg["d"]))])
         eps.append({"obj": 0, "kind": kind, "via": rf.choice(["LibRDEngine", "factory"]), "script": j, "ops": ops})
     return {"format": 1, "property": ID, "seed": seed, "tier": tier, "index": index, "build": "plain",
             "scripts": scripts, "lifetimes": [{"pyseed": rf.bits(30), "episodes": eps}],
@@ -152,6 +159,20 @@ def check(case, results):
         traj.check_script_numbers(h.setup, phys, v, "C09")
         traj.sampler_oracle(h, phys, v, stats, "C09", fixed_step=(kind != "gillespie"))
         traj.output_oracle(h, traj.recs_at_factory(h), phys, m.ns, m.nc, v, stats, "C09")
+        for ev in res.events:
+            if ev["e"] == ei and ev["op"] == "simulate_cg" and not ev.get("skipped"):
+                if "exc" in ev:
+                    continue        # (reported with the other exceptions)
+                stats["coarse_grained_runs"] = stats.get("coarse_grained_runs", 0) + 1
+                has_sample = any(o_[0] == "sample" or (o_[0] == "drive" and any(q_[0] == "sample" for q_ in o_[1]))
+                                 for o_ in ep["ops"])
+                full = [o_ for (ap_, o_) in h.outputs if getattr(h, "complete_pred", False) and not has_sample]
+                if full and full[-1]["t"] != ev["t"] and not v:
+                    import numpy as np
+                    v.append({"oracle": "C09.sampler", "detail": "the coarse-grained run of the same fixed-step script records at "
+                              "%s, the plain run at %s (script time units)" % (
+                                  np.frombuffer(ev["t"], dtype=np.float64).tolist()[:8],
+                                  np.frombuffer(full[-1]["t"], dtype=np.float64).tolist()[:8])})
         stats["policies"][phys["sp"]["policy"]] = stats["policies"].get(phys["sp"]["policy"], 0) + 1
         stats["engine_steps"] = stats.get("engine_steps", 0) + getattr(h, "nsteps", 0)
         if getattr(h, "hit_cap", False):
